@@ -384,15 +384,15 @@ def c16_select_orders_unsorted_queue(ctx, v):
 def c16_remove_entry_every_peer(ctx, v):
     """BlockchainSyncState::remove_entry(hash) — called when a block arrived by another route or
     is already held — with TWO peers whose queues both hold an entry for that hash (any status)
-    next to another entry: when the per-peer pass is done (explored up to the final clean-up of
-    empty queues) NO queue holds an entry for that hash any more — otherwise the entry left
+    next to another entry: afterwards (the final clean-up of empty queues included — HashMap::retain
+    and VecDeque::retain both run over the code's own closures) NO queue holds an entry for that hash
+    any more — otherwise the entry left
     behind stays in flight for ever (its peer is never asked again) or the block is requested
     again — and every other entry is still there with its status."""
     from .models import value_eq
     body = ctx.body(r"blockchain_sync_state::<impl at [^>]*>::remove_entry$")
     ex = ctx.executor(loop_bound=6, inline="auto", max_paths=4000, no_inline=[r"to_hex", r"fmt"])
     ex.pure = [r".*"]
-    ex.stop_calls = [r"(?:AHashMap|HashMap)::<u64, .*>::retain::"]
     h = ex.fresh_value("[u8; 32]", "removed.hash")
     peers, queues, others = [], [], []
     for p in range(2):
@@ -426,6 +426,10 @@ def c16_remove_entry_every_peer(ctx, v):
         for p in range(2):
             cell = pmap.entries[p][2]
             dq = cell.v if isinstance(cell, S.Cell) else cell
+            if z3.is_false(z3.simplify(pmap.entries[p][0])):
+                L.fail_structural(v, o, "remove_entry dropped the whole queue of peer #%d although it still held an entry for a different block" % p)
+                bad = True
+                continue
             if not isinstance(dq, S.Seq):
                 return v.undecided("queue of peer #%d is no longer a tracked sequence" % p)
             v.queries += 1
